@@ -32,7 +32,10 @@ ASSUMPTIONS = ['integer-valued data: every f64 operation on schedules/loads is e
 
 
 def generate(rng, tier, n):
-    return [O.gen_case(rng, tier) for _ in range(n)]
+    cases = [O.gen_case(rng, tier) for _ in range(n)]
+    # targeted stream: tours that LKH re-orders so that a later part of a pickup-delivery job cannot be put back (repair)
+    cases += [O.gen_repair_case(rng) for _ in range(max(10, n // 12))]
+    return cases
 
 
 # ---------------------------------------------------------------- explanation of a transition by model primitives
@@ -276,6 +279,7 @@ def nontrivial_key(c, impl):
 def classify(c, impl):
     labs = ['metric=%s' % O.is_metric(c), 'locks=%d' % len(c.get('locks', []))]
     labs += ['feature:' + k for k, v in c['features'].items() if v]
+    labs.append('stream=%s' % c.get('stream', 'random'))
     labs.append('ignored_jobs=%d' % len(c.get('ignored', [])))
     labs.append('steps_with_quota=%d' % sum(1 for o in c['history'] if o.get('quota') is not None))
     if 'panic' in impl:
